@@ -3,9 +3,9 @@
 # Works only in scratch worktrees of /repo (never /repo itself). Output: seeded/CONFIRM.tsv
 export GOFLAGS=-mod=mod GOPROXY=off GOSUMDB=off GOTOOLCHAIN=local
 cd /verif
-out=seeded/CONFIRM.tsv
+out=${CONFIRM_OUT:-seeded/CONFIRM.tsv}
 : > $out
-for d in seeded/C*-m*/; do
+for d in ${SEEDED_DIRS:-seeded/C*-*m*/}; do
   id=$(basename $d)
   W=$(mktemp -d /tmp/confirm.XXXXXX)
   git -C /repo worktree add -q --detach "$W" HEAD >/dev/null 2>&1
